@@ -21,6 +21,9 @@ func init() { extractors["records"] = extractRecords }
 
 type constEnv map[string]constant.Value
 
+// directory of every parsed file (attrMasks looks for helpers in the sibling files)
+var fileDir = map[*ast.File]string{}
+
 func (env constEnv) eval(e ast.Expr) (constant.Value, bool) {
 	switch x := e.(type) {
 	case *ast.BasicLit:
@@ -60,6 +63,7 @@ func fileConsts(path string) (constEnv, *ast.File, error) {
 	if err != nil {
 		return nil, nil, err
 	}
+	fileDir[f] = filepath.Dir(path)
 	env := constEnv{}
 	ast.Inspect(f, func(n ast.Node) bool {
 		gd, ok := n.(*ast.GenDecl)
@@ -122,6 +126,107 @@ func literalsOf(body ast.Node, op token.Token, env constEnv) (vals []uint64) {
 	return
 }
 
+// attrMasks: the constants Y of every `X & Y` whose X mentions an identifier or field named like the batch/message
+// attributes, in the body of the function and (so that a test moved into a helper is still found) in the bodies of the
+// same-file functions it calls, transitively.
+func attrMasks(f *ast.File, body *ast.BlockStmt, env0 constEnv) (vals []uint64) {
+	decls := map[string]*ast.FuncDecl{}
+	env := constEnv{}
+	for k, v := range env0 {
+		env[k] = v
+	}
+	files := []*ast.File{f}
+	if dir := fileDir[f]; dir != "" { // helpers and constants of the other files of the package
+		if names, err := filepath.Glob(filepath.Join(dir, "*.go")); err == nil {
+			for _, n := range names {
+				if strings.HasSuffix(n, "_test.go") {
+					continue
+				}
+				if e2, f2, err := fileConsts(n); err == nil {
+					files = append(files, f2)
+					for k, v := range e2 {
+						if _, ok := env[k]; !ok {
+							env[k] = v
+						}
+					}
+				}
+			}
+		}
+	}
+	for _, ff := range files {
+		for _, d := range ff.Decls {
+			if fd, ok := d.(*ast.FuncDecl); ok && fd.Body != nil {
+				if _, dup := decls[fd.Name.Name]; !dup {
+					decls[fd.Name.Name] = fd
+				}
+			}
+		}
+	}
+	mentionsAttributes := func(e ast.Expr) bool {
+		found := false
+		ast.Inspect(e, func(n ast.Node) bool {
+			if id, ok := n.(*ast.Ident); ok && strings.Contains(strings.ToLower(id.Name), "attr") {
+				found = true
+			}
+			return !found
+		})
+		return found
+	}
+	seen := map[*ast.BlockStmt]bool{}
+	var walk func(b *ast.BlockStmt, all bool)
+	walk = func(b *ast.BlockStmt, all bool) {
+		if b == nil || seen[b] {
+			return
+		}
+		seen[b] = true
+		ast.Inspect(b, func(n ast.Node) bool {
+			switch x := n.(type) {
+			case *ast.BinaryExpr:
+				if x.Op == token.AND && (all || mentionsAttributes(x.X)) {
+					if v, ok := env.eval(x.Y); ok {
+						if u, ok := constant.Uint64Val(v); ok {
+							vals = append(vals, u)
+						}
+					}
+				}
+			case *ast.CallExpr:
+				name := ""
+				switch fn := x.Fun.(type) {
+				case *ast.Ident:
+					name = fn.Name
+				case *ast.SelectorExpr:
+					name = fn.Sel.Name
+				}
+				if fd, ok := decls[name]; ok {
+					// a helper that is handed the attributes (argument or receiver): every mask test in it counts
+					handed := false
+					if sel, ok := x.Fun.(*ast.SelectorExpr); ok && mentionsAttributes(sel.X) {
+						handed = true
+					}
+					for _, a := range x.Args {
+						if mentionsAttributes(a) {
+							handed = true
+						}
+					}
+					if handed || strings.Contains(strings.ToLower(name), "append") || strings.Contains(strings.ToLower(name), "timestamp") {
+						walk(fd.Body, handed)
+					}
+				}
+			}
+			return true
+		})
+	}
+	walk(body, false)
+	sort.Slice(vals, func(i, j int) bool { return vals[i] < vals[j] })
+	out := vals[:0]
+	for i, v := range vals {
+		if i == 0 || v != vals[i-1] {
+			out = append(out, v)
+		}
+	}
+	return out
+}
+
 func u(env constEnv, name string) (uint64, error) {
 	v, ok := env[name]
 	if !ok {
@@ -147,7 +252,9 @@ func extractRecords(repo, root string) error {
 	out.WriteString("-- GENERATED by /verif/go/extract (records) from /repo/{recordbatch.go,message_reader.go,protocol/record.go,\n")
 	out.WriteString("-- protocol/record_v2.go,protocol/buffer.go,compress/snappy/xerial.go} — do not edit\n")
 	out.WriteString("namespace KV.Gen.RecordConsts\n")
-	def := func(name string, v uint64, doc string) { fmt.Fprintf(&out, "/-- %s -/\ndef %s : Nat := %d\n", doc, name, v) }
+	def := func(name string, v uint64, doc string) {
+		fmt.Fprintf(&out, "/-- %s -/\ndef %s : Nat := %d\n", doc, name, v)
+	}
 
 	env, _, err := fileConsts(filepath.Join(repo, "recordbatch.go"))
 	if err != nil {
@@ -179,23 +286,65 @@ func extractRecords(repo, root string) error {
 		return err
 	}
 	def("legacyCompressionMask", v, "message_reader.go `compressionCodecMask`")
+	codecMask := v
+	without := func(xs []uint64, drop uint64) []uint64 {
+		ys := []uint64{}
+		for _, x := range xs {
+			if x != drop {
+				ys = append(ys, x)
+			}
+		}
+		return ys
+	}
+	fmt.Fprintf(&out, "/-- message_reader.go readMessageV2: the `attributes & <mask>` tests (timestamp type: LogAppendTime) -/\ndef legacyStampMasksV2 : List Nat := %s\n",
+		natList(without(attrMasks(f, funcBody(f, "messageSetReader", "readMessageV2"), env), codecMask)))
+	fmt.Fprintf(&out, "/-- message_reader.go readHeader: the `attributes & <mask>` tests other than the codec's (control batches are passed over since fix 314fa1c) -/\ndef legacyHeaderMasks : List Nat := %s\n",
+		natList(without(attrMasks(f, funcBody(f, "messageSetReader", "readHeader"), env), codecMask)))
+	fmt.Fprintf(&out, "/-- message_reader.go readMessageV1: the `attributes & <mask>` tests other than the codec's -/\ndef legacyStampMasksV1 : List Nat := %s\n",
+		natList(without(attrMasks(f, funcBody(f, "messageSetReader", "readMessageV1"), env), codecMask)))
 
 	env, f, err = fileConsts(filepath.Join(repo, "protocol", "record.go"))
 	if err != nil {
 		return err
 	}
+	var txnBit, controlBit uint64
 	for _, n := range []string{"Transactional", "Control", "magicByteOffset"} {
 		if v, err = u(env, n); err != nil {
 			return err
 		}
 		def(strings.ToLower(n[:1])+n[1:]+"Const", v, "protocol/record.go `"+n+"`")
+		switch n {
+		case "Transactional":
+			txnBit = v
+		case "Control":
+			controlBit = v
+		}
 	}
 	masks := literalsOf(funcBody(f, "Attributes", "Compression"), token.AND, env)
 	if len(masks) != 1 {
 		return fmt.Errorf("protocol/record.go Compression(): expected one `a & <mask>`, found %v", masks)
 	}
 	def("compressionMask", masks[0], "protocol/record.go `Attributes.Compression`: `a & 7`")
+	compMask := masks[0]
 
+	penv := env
+	for _, name := range []string{"record_v2.go", "record_v1.go"} {
+		env, f, err = fileConsts(filepath.Join(repo, "protocol", name))
+		if err != nil {
+			return err
+		}
+		for k, x := range penv {
+			if _, ok := env[k]; !ok {
+				env[k] = x
+			}
+		}
+		fn, dn := "readFromVersion2", "stampMasksV2"
+		if name == "record_v1.go" {
+			fn, dn = "readFromVersion1", "stampMasksV1"
+		}
+		fmt.Fprintf(&out, "/-- protocol/%s %s: the `attributes & <mask>` tests other than codec / control / transactional (timestamp type: LogAppendTime) -/\ndef %s : List Nat := %s\n",
+			name, fn, dn, natList(without(without(without(attrMasks(f, funcBody(f, "RecordSet", fn), env), compMask), controlBit), txnBit)))
+	}
 	env, f, err = fileConsts(filepath.Join(repo, "protocol", "record_v2.go"))
 	if err != nil {
 		return err
